@@ -193,7 +193,9 @@ def generate(task: Task):
             env['exc'] = exc
             for cl in c.exc_ensures.get(nm, ()):
                 f = ip.spec_bool(cl.src, s, extra=env)
-                ctx.oblige(s, f'{qn}#exc-post:{nm}:{cl.label}@path{pid}', 'post', cl.role, f, note=cl.src)
+                o = ctx.oblige(s, f'{qn}#exc-post:{nm}:{cl.label}@path{pid}', 'post', cl.role, f, note=cl.src)
+                if o is not None:
+                    o.clause = cl
             _frame_obligations(task, s, pid, exceptional=True)
             continue
         if flow is not None and flow[0] not in ('return',):
@@ -635,7 +637,8 @@ def verify_instance(key, label, timeout_ms=20000, which=None, seed=0, crosscheck
             from .replay import make_replay
             inst = dict(instances(c))[label]
             task = Task(c, inst, label)
-            for kd, cl in [('post', cl) for cl in c.ensures] + [('raises', None)]:
+            for kd, cl in [('post', cl) for cl in c.ensures] + [('raises', None)] + \
+                    [(f'exc-post:{en}', cl) for en, cls in c.exc_ensures.items() for cl in cls]:
                 src = cl.src if cl is not None else ''
                 srcs = native_search(task, kd, src, seed, tries=300, lenient=True)
                 if srcs is not None:
@@ -644,6 +647,7 @@ def verify_instance(key, label, timeout_ms=20000, which=None, seed=0, crosscheck
                     fo = _O()
                     lab = cl.label if cl is not None else 'raises'
                     fo.name, fo.kind, fo.note = f'{c.qualname}#{kd}:{lab}@native', kd, src
+                    kd = 'post' if kd.startswith('exc-post') else kd
                     out['obligations'].append({
                         'name': f'{task.name}::{fo.name}', 'short': fo.name, 'kind': kd, 'role': 'clause',
                         'result': 'sat', 'expect': 'unsat', 'ok': False, 'time': 0.0, 'backend': 'native-search',
